@@ -810,7 +810,7 @@ func c27(c *rig.Ctx) {
 	box := startBox(c, "c27")
 	defer box.close()
 	st := &c27stats{kinds: map[string]int{}}
-	nd, nm := c.Pick(110, 2500), c.Pick(60, 1200)
+	nd, nm := c.Pick(90, 2500), c.Pick(50, 1200)
 	for i := 0; i < nd && c.Violations() < 10; i++ {
 		c27dmlProgram(c, box, i, st)
 	}
